@@ -50,7 +50,7 @@ FROM_AST_PY = REPO / "src/py_gql/sdl/schema_from_ast.py"
 CFG_KEYS = ["keepAllTypes", "deepClone", "accumulateBusted", "cloneSchemaDres",
             "extObjDres", "extFieldSub", "extFieldPy", "extIfaceRtype", "extUnionDesc", "extUnionRtype",
             "extArgPy", "extInputPy", "extKeepAll", "extSchemaDres", "extInputFieldExtended", "cloneRegsDeep",
-            "cloneRegsFiltered", "cloneRegsByValue", "extKeepRegs"]
+            "cloneRegsFiltered", "cloneRegsByValue", "extKeepRegs", "extLeafCopied"]
 
 
 def read_cfg():
@@ -161,6 +161,28 @@ def read_cfg():
         "extArgPy": "python_name" in kw["Argument"],
         "extInputPy": "python_name" in kw["InputField"],
     })
+    # leaf types on extension: rebuilt as plain ScalarType(...) / EnumType(...) (the class of a subclass instance is lost)
+    # or copied with copy.copy (T9)
+    leaf = {}
+    for n in ast.walk(btree):
+        if isinstance(n, ast.FunctionDef) and n.name in ("_extend_scalar_type", "_extend_enum_type"):
+            cls = "ScalarType" if n.name == "_extend_scalar_type" else "EnumType"
+            arg = n.args.args[1].arg
+            calls = [c for c in ast.walk(n) if isinstance(c, ast.Call)]
+            rebuilt = any(isinstance(c.func, ast.Name) and c.func.id == cls for c in calls)
+            copied = any(isinstance(c.func, ast.Attribute) and c.func.attr == "copy" and isinstance(c.func.value, ast.Name)
+                         and c.func.value.id == "copy" and len(c.args) == 1 and isinstance(c.args[0], ast.Name) and c.args[0].id == arg
+                         for c in calls)
+            if rebuilt == copied:
+                raise ValueError("%s: neither a plain %s(...) rebuild nor copy.copy(%s)" % (n.name, cls, arg))
+            if copied and cls == "EnumType" and not any(isinstance(c.func, ast.Attribute) and c.func.attr == "_set_values" for c in calls):
+                raise ValueError("_extend_enum_type: copied enum without _set_values(values)")
+            leaf[cls] = copied
+    if set(leaf) != {"ScalarType", "EnumType"}:
+        raise ValueError("_extend_scalar_type / _extend_enum_type not found")
+    if leaf["ScalarType"] != leaf["EnumType"]:
+        raise ValueError("_extend_scalar_type and _extend_enum_type differ in how they derive the new type object (one flag in the model)")
+    cfg["extLeafCopied"] = leaf["ScalarType"]
     # attributes that MUST be copied for the model to be right (always copied today)
     for cls, ks in (("Field", {"description", "deprecation_reason", "resolver", "args"}),
                     ("Argument", {"default_value", "description"}), ("InputField", {"default_value", "description"}),
@@ -795,6 +817,26 @@ def _to_string(schema):
         return "exc:" + type(e).__name__
 
 
+def check_leaf_behaviour(step, src, res, fail):
+    """A custom scalar / enum the step did not remove is an object of the same Python class and serializes / parses alike."""
+    from py_gql.schema import EnumType, ScalarType
+    for name, t in src.types.items():
+        r = res.types.get(name)
+        if name.startswith("__") or r is None or not isinstance(t, (ScalarType, EnumType)):
+            continue
+        kind = "scalar" if isinstance(t, ScalarType) else "enum"
+        if type(r) is not type(t):
+            fail("preserved:%s:%s:class" % (step["op"], kind), "%s %s was an instance of %s, the result registers an instance of %s"
+                 % (kind, name, type(t).__name__, type(r).__name__))
+        elif kind == "scalar" and name not in W.SCALARS:
+            try:
+                a, b = (t.serialize("v"), t.parse("v")), (r.serialize("v"), r.parse("v"))
+            except Exception:  # noqa
+                continue
+            if a != b:
+                fail("preserved:%s:scalar:behaviour" % step["op"], "scalar %s serializes / parses 'v' as %r, in the result as %r" % (name, a, b))
+
+
 def track_registered(step, tracked_src, res, fail):
     """The resolvers REGISTERED on the source (through `register_resolver` / `register_subscription`) followed through the
     chain of derivations: {(type, current field name): (id, attribute)}. A field that is still there must still CARRY the
@@ -996,6 +1038,7 @@ def one_sequence(ctx, seed_note, size, n_steps, steps=None, build_seed=None):
             closed_check("right after the step")
             world = W.canon(dumper.dump([cur, res]))
             check_result(step, cur_world, world, 1, fail)
+            check_leaf_behaviour(step, cur, res, fail)
             tracked.append(track_registered(step, tracked[si], res, fail))
             tracked_sub.append(track_registered(step, tracked_sub[si], res, fail))
             if step["op"] != "replace":
